@@ -102,6 +102,7 @@ let h_sha512 (l : big_int list) : big_int list = bytes_to_model (ask "sha512" [b
 let h_sha256 (l : big_int list) : big_int list = bytes_to_model (ask "sha256" [bytes_of_model l])
 let h_hmac512 (k : big_int list) (d : big_int list) : big_int list = bytes_to_model (ask "hmac_sha512" [bytes_of_model k; bytes_of_model d])
 let h_hash160 (l : big_int list) : big_int list = bytes_to_model (ask "hash160" [bytes_of_model l])
+let h_dsha256 (l : big_int list) : big_int list = bytes_to_model (ask "dsha256" [bytes_of_model l])
 let h_base58 (l : big_int list) : big_int list = bytes_to_model (ask "base58" [bytes_of_model l])
 
 let tables_path = ref ""
